@@ -89,6 +89,11 @@ def SEQS():
     return ["CASSLGQ", "CASSLGQF", "CASSLAQ", "CSSLGQ", "WWYY", "WWYA", "CASSLGQ", "CASRLGQ", "WYY"]
 
 
+def SEQS_B():
+    # same length as SEQS() but different content: exposes state keyed on sizes instead of contents
+    return ["CSARDRTGNGYTF", "CSARDRTGNGYT", "CSARDKTGNGYTF", "WWYY", "AAYY", "WWYYY", "CSARDRTGNGYTF", "CAWSVGQF", "CAWSVGQ"]
+
+
 def QUERIES():
     return ["CASSLGQ", "WWYYA", "CASSLGG", "AAAA"]
 
@@ -121,7 +126,7 @@ def STATDF():
 def RAWDF():
     return pd.DataFrame({"TRAV": ["av26.1*1", "TCRAV20*01", "unknown"], "CDR3A": ["CIVRAPGRADMRF", "CAVPSGAGSYQLTF", None],
                          "TRBV": ["bv13*1", "TCRBV28S1*01", "TRBV7-2*01"], "CDR3B": ["CASSYLPGQGDHYSNQPQHF", "cassf", "CASSDWGSQNTLYF"],
-                         "Epitope": ["FLKEKGGL", "x1", "YMPYFFTLL"], "MHCA": ["b8", "HLA-DQA1*05", np.nan], "clone": [1, 2, 3]},
+                         "Epitope": ["flkekggl", "x1", "YMPYFFTLL"], "MHCA": ["b8", "HLA-DQA1*05", np.nan], "clone": [1, 2, 3]},
                         index=["a", "b", "c"])
 
 
@@ -179,6 +184,31 @@ def _():
 @spec("nn_k2_series", "nn")
 def _():
     return S(pyrepseq.nearest_neighbor, pd.Series(SEQS(), index=list("abcdefghi")), max_edits=2, post=triplets)
+
+
+@spec("nn_default_other_content", "nn")
+def _():
+    return S(pyrepseq.nearest_neighbor, SEQS_B(), post=triplets)
+
+
+@spec("symdel_k2_other_content_ndarray", "nn")
+def _():
+    return S(pyrepseq.symdel, np.array(SEQS_B()), max_edits=2, post=triplets)
+
+
+@spec("hash_based_k2_ndarray", "nn")
+def _():
+    return S(pyrepseq.hash_based, np.array(["WWYY", "CAAF", "WWYA", "AAYY", "CADF", "CAF"]), max_edits=2, post=triplets)
+
+
+@spec("kdtree_ndarray_other_content", "nn")
+def _():
+    return S(pyrepseq.kdtree, np.array(SEQS_B()), max_edits=2, post=triplets)
+
+
+@spec("kdtree_series_ncpu2_hamming", "nn")
+def _():
+    return S(pyrepseq.kdtree, pd.Series(SEQS_B(), index=list("rstuvwxyz")), max_edits=1, n_cpu=2, custom_distance="hamming", post=triplets)
 
 
 @spec("nn_hamming", "nn")
@@ -445,6 +475,23 @@ def _():
                         pyrepseq.calculate_neighbor_numbers(s), pyrepseq.isdist1("CAAE", set(s)), pyrepseq.nndist_hamming("CDDE", set(s), maxdist=3)], seqs)
 
 
+@spec("pair_utils_set_args", "distance")
+def _():
+    seqs = {"CAAA", "CAAD", "CDDD", "CDAD", "CAAE", "WAAA"}
+    ref = {"CAAA", "CAAD", "CDDD"}
+    return S(lambda s, r: [sorted(sorted(p) for p in pyrepseq.find_neighbor_pairs(s)),
+                           sorted(sorted(p) for p in pyrepseq.find_neighbor_pairs(s, neighborhood=pyrepseq.levenshtein_neighbors)),
+                           sorted(pyrepseq.calculate_neighbor_numbers(sorted(s), reference=r).tolist()),
+                           pyrepseq.isdist1("CAAE", r), pyrepseq.nndist_hamming("CDDE", r, maxdist=3),
+                           sorted(pyrepseq.next_nearest_neighbors("CA", lambda x: pyrepseq.hamming_neighbors(x, "ACD")))], seqs, ref)
+
+
+@spec("overlaps_sets", "stats")
+def _():
+    return S(lambda a, b: [pyrepseq.jaccard_index(a, b), pyrepseq.overlap(a, b), pyrepseq.overlap_coefficient(a, b)],
+             {"a", "b", "c"}, frozenset(["b", "c", "d"]))
+
+
 @spec("nndist_maxdist_raises", "distance", raises=True)
 def _():
     return S(pyrepseq.nndist_hamming, "CAAA", {"CAAD"}, maxdist=5)
@@ -455,9 +502,20 @@ def _():
     return S(pyrepseq.hierarchical_clustering, SEQS())
 
 
+@spec("hierarchical_default_table", "distance")
+def _():
+    return S(pyrepseq.hierarchical_clustering, TCR())
+
+
 @spec("hierarchical_kws", "distance")
 def _():
-    return S(pyrepseq.hierarchical_clustering, TCR(), linkage_kws=dict(method="single"), cluster_kws=dict(t=2, criterion="maxclust"))
+    return S(pyrepseq.hierarchical_clustering, TCR(), linkage_kws=dict(method="single"), cluster_kws=dict(t=3, criterion="maxclust"))
+
+
+@spec("hierarchical_kws_strings", "distance")
+def _():
+    return S(pyrepseq.hierarchical_clustering, SEQS_B(), metric=WeightedLevenshtein(1, 1, 2), linkage_kws=dict(method="complete", optimal_ordering=False),
+             cluster_kws=dict(t=4.5, criterion="distance"))
 
 
 # --- metric -------------------------------------------------------------------
